@@ -16,6 +16,7 @@ pub mod cbor;
 pub mod cmodel;
 pub mod comments;
 pub mod jsonw;
+pub mod parents;
 pub mod sample;
 pub mod sem;
 pub mod semgen;
